@@ -144,6 +144,7 @@ func c01Serialize(c *vk.Ctx) {
 				map[string]any{"pubkey": serPubkey, "created_at": serCreatedAt, "kind": serKind, "tags": []string{}, "content": ""})
 		}
 	}
+	unstable := 0
 	for i, r := range bad {
 		if i >= serMaxPerCP || structural {
 			break
@@ -175,8 +176,17 @@ func c01Serialize(c *vk.Ctx) {
 			}
 		}
 		if !reproduced {
-			c.Infra("serialization mismatch for %s did not reproduce on re-evaluation", cpName(r))
+			// Serialize and the reference are functions of the event: a difference that appears while
+			// 16 goroutines serialize different events at once and disappears when the same event is
+			// serialized alone means that concurrent calls share state (parts c01-calls and
+			// c01-concurrent give the deterministic schedule)
+			unstable++
 		}
+	}
+	if unstable > 0 {
+		c.Violate("C01/serialize: Serialize is not a function of its event when called concurrently",
+			fmt.Sprintf("%d code points (first %s) were serialized differently from NIP-01 while other goroutines serialized other events, and identically to it when serialized alone afterwards", unstable, cpName(bad[0])),
+			map[string]any{"how": "run part c01-serialize again; the deterministic counterpart is part c01-calls / c01-concurrent", "first_code_point": cpName(bad[0])})
 	}
 	if len(bad) > serMaxPerCP && !structural {
 		c.Violate(fmt.Sprintf("C01/serialize: more than %d code points serialized differently from NIP-01", serMaxPerCP),
